@@ -80,6 +80,25 @@ def run(ctx, H):
         if ctx.rng.random() < 0.2:
             acc.append(rand_word(ctx.rng, ctx.rng.choice([1, 5, 20])))
         explicit.append((base, acc))
+    # every class boundary of the typo budget, at the distances just inside and just outside the budget: a received string of
+    # exactly L bytes and a candidate at Damerau-Levenshtein distance exactly d (d substitutions by a letter used nowhere else)
+    budget = lambda n: None if n <= 3 else 1 if n <= 7 else 2 if n <= 12 else 3 if n <= 17 else 4 if n <= 24 else 5
+    letters = "abcdefghijklmnopqrstuvwxyz0123456789"
+    for L in (3, 4, 5, 7, 8, 9, 12, 13, 14, 17, 18, 19, 23, 24, 25, 26, 40):
+        base = letters[:L] if L <= len(letters) else (letters + letters.upper())[:L]
+        b = budget(L) or 0
+        for d in sorted({1, b, b + 1, b + 2} - {0}):
+            if d > L:
+                continue
+            pos = ctx.rng.sample(range(L), d)
+            cand = "".join("_" if i in pos else ch for i, ch in enumerate(base))
+            explicit.append((base, [cand]))
+            explicit.append((base, ["zzzzzzzzzzzz", cand, base[::-1]]))
+            # the same budget class reached with multi-byte characters: the byte length decides the class
+            mb = "\u00e9" * (L // 2) + ("x" if L % 2 else "")
+            if d <= len(mb):
+                posm = ctx.rng.sample(range(len(mb)), d)
+                explicit.append((mb, ["".join("_" if i in posm else ch for i, ch in enumerate(mb))]))
     eobs = C.run_harness(H.binary, [{"mode": "dym", "received": r, "accepted": acc} for r, acc in explicit])
     erows = ["(%d, (%s, %s, %s))" % (i, C.cstr(r), C.clist([C.cstr(a) for a in acc]), C.cstr(o["dym"]))
              for i, ((r, acc), o) in enumerate(zip(explicit, eobs))]
